@@ -26,6 +26,7 @@ class Recorder:
     self.on_invoke = None  # fn(rec) -> None; may raise, pause, nested-build
     self.thread_id = _zero
     self.serial = 0
+    self.mutate_args = False   # callables that modify their container arguments
 
   def invoke(self, stub, args):
     args = dict(args)
@@ -34,6 +35,12 @@ class Recorder:
     args.pop('__class__', None)
     self.serial += 1
     rec = Rec(stub, args, self.serial)
+    if self.mutate_args:
+      for v in args.values():
+        if type(v) is list:
+          v.append('mutated-by-callee')
+        elif type(v) is dict and v is not args.get('kw'):
+          v['mutated-by-callee'] = 1
     self.log.append(rec)
     self.threads.append(self.thread_id())
     if self.on_invoke is not None:
